@@ -158,6 +158,7 @@ class Calls(Exec):
             fr.loc[n] = v
         st.frames.append(fr)
         st.depth += 1
+        lver0 = st.lver
         saved_key = self.cur_inline
         self.cur_inline = key
         try:
@@ -168,7 +169,7 @@ class Calls(Exec):
         for s, kind, v in outs:
             s.frames.pop()
             s.depth -= 1
-            s.lver += 1
+            s.lver = lver0      # the callee's own locals are gone; no other frame can be rebound by it
             if kind == 'return':
                 res.append((s, v))
             elif kind == 'next':
@@ -500,7 +501,13 @@ class Calls(Exec):
         for upd in spec.get('ghost_update', []):
             name, expr = upd
             v = self.eval_spec_value(st, expr, fr)
-            st.frames[0].loc[name] = v
+            # ghost variables live in the frame of the function under proof
+            fi = len(st.frames) - 1
+            while fi is not None and name not in st.frames[fi].loc:
+                fi = st.frames[fi].parent
+            if fi is None:
+                raise Unsupported('ghost variable %s not initialised' % name, node)
+            st.frames[fi].loc[name] = v
             st.lver += 1
         return [(st, self.make_fresh(st, parse_type(spec.get('returns', 'any')), 'cbret'))]
 
@@ -900,18 +907,25 @@ class Calls(Exec):
         if isinstance(d, VRec):
             if name == 'get':
                 k = args[0]
+                dflt = args[1] if len(args) > 1 else NONE
                 if isinstance(k, VStr) and k.lit is not None:
                     if k.lit in self.rec_fields(d.name):
-                        return [(st, self.rec_load(st, d, k.lit, node))]
-                    return [(st, args[1] if len(args) > 1 else NONE)]
+                        pres = simp(self.rec_present(st, d, k.lit))
+                        val = self.rec_load(st, d, k.lit, node, check=False)
+                        return [(st, mk_union([(pres, val), (NOT(pres), dflt)]))]
+                    return [(st, dflt)]
             if name == 'update':
-                src = args[0]
-                if isinstance(src, VConst) and src.py == {}:
-                    return [(st, NONE)]
-                if isinstance(src, VRec) and src.name == d.name:
-                    raise Unsupported('record update from record', node)
-                if isinstance(src, VConst) and isinstance(src.py, dict):
-                    for k2, v2 in src.py.items():
-                        self.rec_store(st, d, k2, from_py(v2), node)
-                    return [(st, NONE)]
+                def upd(s, src):
+                    if isinstance(src, VNone):
+                        self.prove(s, FALSE, 'aorte', node, "TypeError: 'NoneType' object is not iterable (dict.update)")
+                        raise PathDead()
+                    if isinstance(src, VConst) and isinstance(src.py, dict):
+                        for k2, v2 in src.py.items():
+                            self.rec_store(s, d, k2, from_py(v2), node)
+                        return [(s, NONE)]
+                    if isinstance(src, VRec):
+                        self.rec_update(s, d, src, node)
+                        return [(s, NONE)]
+                    raise Unsupported('dict.update from %s' % src.kind, node)
+                return self.umap(st, args[0], upd, node)
         raise Unsupported('dict method %s on %s' % (name, d.kind), node)
